@@ -47,7 +47,7 @@ Section Spec.
       (st, RCmp (s_eq a b) (lex_lt vltb a b) (lex_lt vltb b a))
     | OBulk i l =>
       match sget st i with
-      | [] => (sput st i l, RUnit)
+      | [] => (sput st i (bulk_items ltb key dup l), RUnit)   (* unique containers keep one entry per key *)
       | _ :: _ => (st, RInvalid)
       end
     end.
@@ -65,6 +65,7 @@ Section Spec.
     | OInsert i _ | OEraseOne i _ | OEraseKey i _ | OEraseIter i _ | OFind i _ | OExists i _ | OCount i _
     | OLower i _ | OUpper i _ | ORange i _ | OIter i | OClear i => i < n
     | OAssign i j | OCopyCtor i j | OSwap i j | OCompare i j => i < n /\ j < n
-    | OBulk i l => i < n /\ keys_sorted ltb key dup l      (* bulk_load's documented precondition: sorted range *)
+    | OBulk i l => i < n /\ sortedk ltb (map key l) = true   (* bulk_load's documented precondition: a sorted
+                                                                 range; equal keys are allowed in all containers *)
     end.
 End Spec.
